@@ -42,6 +42,8 @@ pub fn floors() -> Vec<String> {
         "duplicate_label_across_break",
         "duplicate_label_across_orig",
         "label_before_break_ok",
+        "undefined_label_sharing_long_prefix",
+        "long_labels_sharing_prefix_ok",
     ] {
         v.push(extra.to_string());
     }
@@ -221,7 +223,31 @@ fn symbol_cases(i: usize, rng: &mut Rng) -> (Program, &'static str) {
             _ => Stmt::Call(name.to_string()),
         }
     };
-    match i % 5 {
+    // labels longer than any "significant characters" limit of other assemblers, sharing a long prefix
+    let long_a = format!("counter_of_processed_{}bytes", "x".repeat(rng.below(3) as usize * 8));
+    let long_b = format!("counter_of_processed_{}items", "x".repeat((long_a.len() - 26) as usize));
+    match i % 7 {
+        5 => (
+            Program {
+                items: vec![
+                    st(Some(&long_a), Stmt::AddR(0, 0, 0)),
+                    st(None, refstmt(&long_b, rng)),
+                    st(None, Stmt::Alias(0x25)),
+                ],
+            },
+            "undefined_label_sharing_long_prefix",
+        ),
+        6 => (
+            Program {
+                items: vec![
+                    st(Some(&long_a), Stmt::AddR(0, 0, 0)),
+                    st(None, refstmt(&long_b, rng)),
+                    st(Some(&long_b), Stmt::Alias(0x25)),
+                    st(None, refstmt(&long_a, rng)),
+                ],
+            },
+            "long_labels_sharing_prefix_ok",
+        ),
         0 => (
             Program {
                 items: vec![
